@@ -193,7 +193,7 @@ func Run(c *hx.Ctx) {
 			func() {
 				defer func() {
 					if r := recover(); r != nil {
-						c.Report("C09/panic/blob", fmt.Sprint(r))
+						c.Report(w.panicClass(b), fmt.Sprint(r))
 						ret = "panic"
 					}
 				}()
@@ -210,6 +210,66 @@ func Run(c *hx.Ctx) {
 			evs, hs, ds := w.drain()
 			c.Emit("blob ret=%s events=%s hm=%s dm=%s", ret, evs, marks(w.env.M.HeaderCache().VerifDAIncluded()), marks(w.env.M.DataCache().VerifDAIncluded()))
 			w.checkAdmission(hs, ds)
+		case "flood":
+			// more genuine blobs at one DA height than the hand-off channel holds, with a consumer that lags behind
+			da, _ := o.U64("da")
+			n := o.Int("n")
+			b := o.Bytes("blob")
+			for i := 0; i < n; i++ {
+				w.da.Place(da, b)
+			}
+			for i := 0; i < n; i++ {
+				w.placed = append(w.placed, placed{da, b, ""})
+			}
+			stopc := make(chan struct{})
+			var got int
+			donec := make(chan struct{})
+			go func() {
+				defer close(donec)
+				hch, dch := w.env.M.VerifHeaderInCh(), w.env.M.VerifDataInCh()
+				for {
+					select {
+					case <-stopc:
+						return
+					default:
+					}
+					if len(hch) == cap(hch) || len(dch) == cap(dch) {
+						time.Sleep(3 * time.Millisecond) // lag: the producer side must wait, not drop
+						for len(hch) > 0 {
+							<-hch
+							got++
+						}
+						for len(dch) > 0 {
+							<-dch
+							got++
+						}
+					} else {
+						time.Sleep(100 * time.Microsecond)
+					}
+				}
+			}()
+			w.env.M.VerifRetrieveSignal()
+			w.waitIdle()
+			close(stopc)
+			<-donec
+			for len(w.env.M.VerifHeaderInCh()) > 0 {
+				<-w.env.M.VerifHeaderInCh()
+				got++
+			}
+			for len(w.env.M.VerifDataInCh()) > 0 {
+				<-w.env.M.VerifDataInCh()
+				got++
+			}
+			w.logN = len(w.da.Log())
+			cur := w.env.M.VerifDAHeight()
+			c.Emit("flood cursor=%d nev=%d", cur, got)
+			if got < n && cur > da {
+				c.Report("C09/handoff/genuine-blob-not-handed-to-sync", fmt.Sprintf("%d genuine blobs at DA height %d, only %d handed to sync (hand-off channel full?)", n, da, got))
+			}
+			w.lastC = cur
+			for h := uint64(0); h < cur; h++ {
+				w.passed[h] = true
+			}
 		case "tick":
 			w.env.M.VerifRetrieveSignal()
 			w.waitIdle()
@@ -229,6 +289,24 @@ func Run(c *hx.Ctx) {
 			c.Emit("bad-op")
 		}
 	}
+}
+
+// panicClass names the kind of blob that made a handler panic, so that a different crash is a different finding.
+func (w *World) panicClass(b []byte) string {
+	var sd types.SignedData
+	if err := sd.UnmarshalBinary(b); err == nil && len(sd.Txs) > 0 && sd.Metadata == nil && sd.Signer.PubKey != nil {
+		pl, _ := sd.Data.MarshalBinary()
+		ok, _ := sd.Signer.PubKey.Verify(pl, sd.Signature)
+		if ok && string(sd.Signer.Address) == string(w.env.Gen.ProposerAddress) {
+			return "C09/panic/accepted-signed-data-without-metadata"
+		}
+		return "C09/panic/rejected-signed-data-without-metadata"
+	}
+	var sh types.SignedHeader
+	if err := sh.UnmarshalBinary(b); err == nil {
+		return "C09/panic/blob-decoding-as-header"
+	}
+	return "C09/panic/other-blob"
 }
 
 // waitIdle: the loop stops at the first height that is from the future or fails ten times in a row.
